@@ -197,28 +197,27 @@ Qed.
 End Pairing.
 
 (* ---------------------------------------------------------------- "the stored column shows value v" *)
-(* chunk id a stored column refers to, when from_record_column takes it for a pointer *)
-Definition cid_of (s : stored) : option Z :=
+(* (chunk id, number of chunks) a stored column refers to, when from_record_column takes it for a pointer *)
+Definition span (s : stored) : option (Z * Z) :=
   match s with
-  | SBytes b => if is_toast_pointer b then match ptr_decode b with Some (_, c) => Some c | None => None end else None
+  | SBytes b => if is_toast_pointer b then match ptr_decode b with Some (t, c) => Some (c, chunk_count t) | None => None end else None
   | _ => None
   end.
 
-(* bytes b are in the record inline, or toasted under some chunk id *)
-Definition var_repr (m : tmap) (s : stored) (b : list Z) : Prop :=
-  (s = SBytes b /\ is_toast_pointer b = false) \/
-  (exists cid, 0 <= cid < 2 ^ 64 /\ s = SBytes (ptr_encode (blen b) cid) /\ stored_at m cid b /\ 1000 < blen b).
+Definition cid_row (rid : Z) : Z := chunk_id_of rid COL_C.
 
-Definition repr (ty : colty) (m : tmap) (s : stored) (v : value) : Prop :=
+(* bytes b of the row with row id rid are in the record inline, or toasted under the row's chunk id *)
+Definition var_repr (m : tmap) (rid : Z) (s : stored) (b : list Z) : Prop :=
+  (s = SBytes b /\ is_toast_pointer b = false) \/
+  (s = SBytes (ptr_encode (blen b) (cid_row rid)) /\ stored_at m (cid_row rid) b /\ b <> []).
+
+Definition repr (ty : colty) (m : tmap) (rid : Z) (s : stored) (v : value) : Prop :=
   match v with
   | VNull => s = SNull
-  | VText b => ty = TText /\ valid_utf8 b = true /\ blen b < ALLOC_OK /\ var_repr m s b
-  | VBlob b => ty = TBlob /\ blen b < ALLOC_OK /\ (1000 < blen b -> valid_utf8 b = false) /\ var_repr m s b
+  | VText b => ty = TText /\ valid_utf8 b = true /\ blen b < ALLOC_OK /\ var_repr m rid s b
+  | VBlob b => ty = TBlob /\ blen b < ALLOC_OK /\ var_repr m rid s b
   | _ => ty = TScalar /\ good_scalar v = true /\ s = SScalar v
   end.
-
-Lemma cid_of_encode total cid : 0 <= total < 2 ^ 64 -> 0 <= cid < 2 ^ 64 -> cid_of (SBytes (ptr_encode total cid)) = Some cid.
-Proof. intros Ht Hc. unfold cid_of. now rewrite ptr_encode_is_pointer, ptr_decode_encode. Qed.
 
 Lemma blen_u64 b : blen b < ALLOC_OK -> 0 <= blen b < 2 ^ 64.
 Proof.
@@ -226,65 +225,100 @@ Proof.
   change (2 ^ 31) with 2147483648 in H. change (2 ^ 64) with 18446744073709551616. lia.
 Qed.
 
-Lemma var_repr_cid m s b c : blen b < ALLOC_OK -> var_repr m s b -> cid_of s = Some c ->
-  s = SBytes (ptr_encode (blen b) c) /\ stored_at m c b /\ 1000 < blen b /\ 0 <= c < 2 ^ 64.
+Lemma cid_row_bound rid : 0 <= rid < 2 ^ 48 -> 0 <= cid_row rid < 2 ^ 64.
+Proof. intros H. apply chunk_id_of_bound. change (2 ^ 48) with 281474976710656 in H. change (2 ^ 64) with 18446744073709551616. lia. Qed.
+
+Lemma cid_row_inj rid rid' : 0 <= rid < 2 ^ 48 -> 0 <= rid' < 2 ^ 48 -> cid_row rid = cid_row rid' -> rid = rid'.
 Proof.
-  intros Hl [[-> Hn]|(cid & Hc & -> & Hs & Hb)] Hcid.
-  - unfold cid_of in Hcid. rewrite Hn in Hcid. discriminate.
-  - rewrite cid_of_encode in Hcid by (auto using blen_u64). injection Hcid as <-. auto.
+  intros H H' E. unfold cid_row in E.
+  assert (0 <= COL_C < 2 ^ 16) as Hc by (unfold COL_C; change (2 ^ 16) with 65536; lia).
+  now destruct (chunk_id_injective_l rid COL_C rid' COL_C H Hc H' Hc E).
 Qed.
 
-(* a row that refers to chunk id c holds a non-empty value there *)
-Lemma repr_cid ty m s v c : repr ty m s v -> cid_of s = Some c -> exists b, stored_at m c b /\ b <> [] /\ 0 <= c < 2 ^ 64 /\ blen b < ALLOC_OK /\ s = SBytes (ptr_encode (blen b) c).
+Lemma span_encode total cid : 0 <= total < 2 ^ 64 -> 0 <= cid < 2 ^ 64 ->
+  span (SBytes (ptr_encode total cid)) = Some (cid, chunk_count total).
+Proof. intros Ht Hc. unfold span. now rewrite ptr_encode_is_pointer, ptr_decode_encode. Qed.
+
+Lemma var_repr_span m rid s b c n : 0 <= rid < 2 ^ 48 -> blen b < ALLOC_OK -> var_repr m rid s b -> span s = Some (c, n) ->
+  c = cid_row rid /\ n = chunk_count (blen b) /\ s = SBytes (ptr_encode (blen b) c) /\ stored_at m c b /\ b <> [].
 Proof.
-  intros Hr Hc. destruct v; cbn [repr] in Hr;
+  intros Hr Hl [[-> Hn]|(-> & Hs & Hb)] Hsp.
+  - unfold span in Hsp. rewrite Hn in Hsp. discriminate.
+  - rewrite span_encode in Hsp by (auto using blen_u64, cid_row_bound). injection Hsp as <- <-. auto.
+Qed.
+
+(* a row that refers to chunk id c (with n chunks) is row-id-owned and holds a non-empty value there *)
+Lemma repr_span ty m rid s v c n : 0 <= rid < 2 ^ 48 -> repr ty m rid s v -> span s = Some (c, n) ->
+  c = cid_row rid /\ exists b, n = chunk_count (blen b) /\ s = SBytes (ptr_encode (blen b) c) /\ stored_at m c b /\ b <> [] /\ blen b < ALLOC_OK.
+Proof.
+  intros Hrid Hr Hc. destruct v; cbn [repr] in Hr;
     try (destruct Hr as (_ & _ & ->); discriminate);
     try (subst s; discriminate).
-  - destruct Hr as (_ & _ & Hl & Hv). destruct (var_repr_cid m s b c Hl Hv Hc) as (E & Hs & Hb & Hcb).
-    exists b. repeat split; auto; try lia. intros ->. rewrite blen_nil in Hb. lia.
-  - destruct Hr as (_ & Hl & _ & Hv). destruct (var_repr_cid m s b c Hl Hv Hc) as (E & Hs & Hb & Hcb).
-    exists b. repeat split; auto; try lia. intros ->. rewrite blen_nil in Hb. lia.
+  - destruct Hr as (_ & _ & Hl & Hv). destruct (var_repr_span m rid s b c n Hrid Hl Hv Hc) as (A & B & C & D & E).
+    split; [exact A|]. exists b. auto.
+  - destruct Hr as (_ & Hl & Hv). destruct (var_repr_span m rid s b c n Hrid Hl Hv Hc) as (A & B & C & D & E).
+    split; [exact A|]. exists b. auto.
 Qed.
 
-Lemma var_repr_extends m m' s b : extends m m' -> var_repr m s b -> var_repr m' s b.
+Lemma var_repr_extends m m' rid s b : extends m m' -> var_repr m rid s b -> var_repr m' rid s b.
 Proof.
-  intros He [H|(cid & Hc & E & Hs & Hb)]; [now left|]. right. exists cid. repeat split; auto; try lia.
-  eapply stored_at_extends; eauto.
+  intros He [H|(E & Hs & Hb)]; [now left|]. right. repeat split; auto. eapply stored_at_extends; eauto.
 Qed.
-Lemma repr_extends ty m m' s v : extends m m' -> repr ty m s v -> repr ty m' s v.
+Lemma repr_extends ty m m' rid s v : extends m m' -> repr ty m rid s v -> repr ty m' rid s v.
 Proof.
   intros He. destruct v; cbn [repr]; auto.
   - intros (A & B & C & D). repeat split; auto. eapply var_repr_extends; eauto.
-  - intros (A & B & C & D). repeat split; auto. eapply var_repr_extends; eauto.
+  - intros (A & B & D). repeat split; auto. eapply var_repr_extends; eauto.
 Qed.
 
 (* deleting the chunks of another chunk id *)
-Lemma var_repr_del m s b c n : blen b < ALLOC_OK -> cid_of s <> Some c -> var_repr m s b -> var_repr (del_chunks m c n) s b.
+Lemma var_repr_del m rid s b c n : cid_row rid <> c -> var_repr m rid s b -> var_repr (del_chunks m c n) rid s b.
 Proof.
-  intros Hl Hne [H|(cid & Hc & E & Hs & Hb)]; [now left|]. right. exists cid. repeat split; auto; try lia.
-  apply del_chunks_keeps; [|exact Hs]. intros ->. apply Hne. subst s. apply cid_of_encode; auto using blen_u64.
+  intros Hne [H|(E & Hs & Hb)]; [now left|]. right. repeat split; auto. now apply del_chunks_keeps.
 Qed.
-Lemma repr_del ty m s v c n : cid_of s <> Some c -> repr ty m s v -> repr ty (del_chunks m c n) s v.
+Lemma repr_del ty m rid s v c n : cid_row rid <> c -> repr ty m rid s v -> repr ty (del_chunks m c n) rid s v.
 Proof.
   intros Hne. destruct v; cbn [repr]; auto.
   - intros (A & B & C & D). repeat split; auto. now apply var_repr_del.
-  - intros (A & B & C & D). repeat split; auto. now apply var_repr_del.
+  - intros (A & B & D). repeat split; auto. now apply var_repr_del.
+Qed.
+
+(* a value that is not toasted does not look at the toast table *)
+Lemma repr_no_span ty m m' rid s v : span s = None -> 0 <= rid < 2 ^ 48 -> repr ty m rid s v -> repr ty m' rid s v.
+Proof.
+  intros Hsp Hrid. destruct v; cbn [repr]; auto.
+  - intros (A & B & C & [D|(-> & _ & _)]); [repeat split; auto; now left|].
+    rewrite span_encode in Hsp by (auto using blen_u64, cid_row_bound). discriminate.
+  - intros (A & C & [D|(-> & _ & _)]); [repeat split; auto; now left|].
+    rewrite span_encode in Hsp by (auto using blen_u64, cid_row_bound). discriminate.
 Qed.
 
 (* ---------------------------------------------------------------- SELECT shows the value *)
-Lemma repr_read ty m s v : repr ty m s v -> read_value ty m s = ROk v.
+Lemma read_toasted ty m rid b : 0 <= rid < 2 ^ 48 -> blen b < ALLOC_OK -> stored_at m (cid_row rid) b ->
+  read_value ty m (SBytes (ptr_encode (blen b) (cid_row rid))) =
+  match ty with TText => if valid_utf8 b then ROk (VText b) else RErr | _ => ROk (VBlob b) end.
 Proof.
-  destruct v; cbn [repr].
+  intros Hrid Hl Hs. pose proof (cid_row_bound rid Hrid) as Hc. pose proof (blen_u64 b Hl) as Hb.
+  cbn [read_value]. rewrite ptr_encode_is_pointer, detoast_stored by auto.
+  rewrite ptr_decode_encode by auto.
+  assert (0 <= COL_C < 2 ^ 16) as Hcol by (unfold COL_C; change (2 ^ 16) with 65536; lia).
+  destruct (chunk_id_fields rid COL_C (blen b) Hrid Hcol) as [_ E]. unfold cid_row. rewrite E, Z.eqb_refl.
+  destruct ty; reflexivity.
+Qed.
+
+Lemma repr_read ty m rid s v : 0 <= rid < 2 ^ 48 -> repr ty m rid s v -> read_value ty m s = ROk v.
+Proof.
+  intros Hrid. destruct v; cbn [repr].
   - intros ->. reflexivity.
   - intros (-> & _ & ->). reflexivity.
   - intros (-> & _ & ->). reflexivity.
   - intros (-> & _ & ->). reflexivity.
-  - intros (-> & Hu & Hl & [[-> Hn]|(cid & Hc & -> & Hs & Hb)]).
+  - intros (-> & Hu & Hl & [[-> Hn]|(-> & Hs & Hb)]).
     + cbn [read_value]. now rewrite Hn.
-    + cbn [read_value]. rewrite ptr_encode_is_pointer, detoast_stored by auto. now rewrite Hu.
-  - intros (-> & Hl & Hu & [[-> Hn]|(cid & Hc & -> & Hs & Hb)]).
+    + rewrite read_toasted by auto. now rewrite Hu.
+  - intros (-> & Hl & [[-> Hn]|(-> & Hs & Hb)]).
     + cbn [read_value]. now rewrite Hn.
-    + cbn [read_value]. rewrite ptr_encode_is_pointer, detoast_stored by auto. now rewrite (Hu Hb).
+    + now rewrite read_toasted by auto.
   - intros (-> & _ & ->). reflexivity.
   - intros (-> & _ & ->). reflexivity.
   - intros (-> & _ & ->). reflexivity.
@@ -295,5 +329,5 @@ Proof.
   - intros (_ & H & _). discriminate.
 Qed.
 
-Lemma repr_not_other ty m s v : repr ty m s v -> v <> VOther.
+Lemma repr_not_other ty m rid s v : repr ty m rid s v -> v <> VOther.
 Proof. intros H ->. cbn [repr] in H. destruct H as (_ & H & _). discriminate. Qed.
